@@ -168,6 +168,17 @@ CLAIMED = {
         technique="rule x position x history x backend enumeration on the real verbs (native execution) + traversal-completeness contract + static scan",
         note="bounded: ~130 rule/position instances x 4 histories x 2 backends on one concrete table; not a proof",
     ),
+    "C19": dict(
+        category="other",
+        text="Totality and determinism of SQL compilation evaluated on the REAL SQLAlchemy dialect compilers for SQLite, PostgreSQL and SQL Server (engines constructed offline with stand-in "
+        "DBAPI modules; nothing connects): every operator x accepted signature (one representative type per family, plain / const / null literal) in a one-verb pipeline, and 18 multi-verb "
+        "pipelines (subqueries through alias, joins, self-join, unions, grouping/having, windows, casts, case, slices), build one SELECT text or raise NotSupportedError / SubqueryError - never "
+        "an internal error; the same pipeline built twice and rebuilt from fresh tables gives the same text without uuid-like tokens. One static obligation holds for all inputs: every @impl "
+        "function of every backend module returns a value on every path.",
+        design_ref="DESIGN.md §5.19",
+        technique="native enumeration on the real dialect compilers (bounded) + static definite-return analysis of all @impl functions",
+        note="trusted: SQLAlchemy compilers; stand-in DBAPI modules only make engine construction possible; DuckDB / DB2 not importable here; bounded enumeration",
+    ),
 }
 
 NOT_YET = "check not built yet (engine under construction); will be claimed as soon as its obligations discharge"
